@@ -58,6 +58,14 @@ pub struct C06Plan {
     /// deduplication window handed to decode1090 (process scenario only)
     #[serde(default)]
     pub dedup_ms: u32,
+    /// python-binding scenario only: sizes of the chunks the history is handed
+    /// over in (the last chunk takes the rest; zeros are empty chunks)
+    #[serde(default)]
+    pub chunks: Vec<u16>,
+    /// python-binding scenario only: an undecodable frame (with its own
+    /// timestamp) is inserted before the report with this index
+    #[serde(default)]
+    pub bad_before: Vec<u32>,
 }
 
 pub struct C06;
@@ -439,6 +447,8 @@ impl Scenario for C06 {
             reports: all,
             kind,
             dedup_ms: 0,
+            chunks: Vec::new(),
+            bad_before: Vec::new(),
         }
     }
     fn execute(&self, plan: &C06Plan) -> Outcome<C06Plan> {
@@ -1260,6 +1270,296 @@ pub fn execute_decode1090(plan: &C06Plan) -> Outcome<C06Plan> {
     out.log_hash = {
         let mut f = Fnv::new();
         f.bytes(&o.stdout);
+        f.u64(viol.is_some() as u64);
+        f.0
+    };
+    out.violation = viol;
+    out
+}
+
+
+// ======================================================================
+// Secondary subject: the python binding's decode_1090t_vec, the third call site
+// of the stateful decoder (parallel parsing of chunks, then decode_positions
+// over the concatenation). The function is private to a cdylib crate: hook H7
+// compiles a small entry point into that crate's unit-test binary, which is run
+// as a process on the generated history (chunked, with undecodable frames in
+// between) and prints the positions of the records it returns.
+
+pub struct PyBinding;
+
+impl Scenario for PyBinding {
+    type Plan = C06Plan;
+    fn id(&self) -> &'static str {
+        "C06"
+    }
+    fn kind(&self) -> &'static str {
+        "python"
+    }
+    fn seed_tag(&self) -> String {
+        "C06/python".to_string()
+    }
+    fn runs(&self, tier: Tier) -> u64 {
+        match tier {
+            Tier::Quick => 1_500,
+            Tier::Thorough => 60_000,
+        }
+    }
+    fn generate(&self, rng: &mut Rng, tier: Tier, idx: u64) -> C06Plan {
+        let mut p = C06.generate(rng, tier, idx);
+        p.restarts.clear();
+        let n = p.reports.len();
+        let mut left = n;
+        while left > 0 {
+            let c = match rng.below(6) {
+                0 => 0,
+                1 => 1,
+                2 => rng.usize(1, 5),
+                _ => rng.usize(1, 60),
+            }
+            .min(left);
+            p.chunks.push(c as u16);
+            left -= c;
+        }
+        if rng.chance(0.6) {
+            for _ in 0..rng.usize(1, 4) {
+                p.bad_before.push(rng.below(n as u64 + 1) as u32);
+            }
+            p.bad_before.sort();
+        }
+        p
+    }
+    fn execute(&self, plan: &C06Plan) -> Outcome<C06Plan> {
+        execute_python(plan)
+    }
+    fn shrink(&self, p: &C06Plan) -> Vec<C06Plan> {
+        let mut v = Vec::new();
+        if !p.bad_before.is_empty() {
+            let mut q = p.clone();
+            q.bad_before.clear();
+            v.push(q);
+            for j in 0..p.bad_before.len() {
+                let mut q = p.clone();
+                q.bad_before.remove(j);
+                v.push(q);
+            }
+        }
+        if p.chunks.len() > 1 {
+            let mut q = p.clone();
+            q.chunks = vec![u16::MAX];
+            v.push(q);
+        }
+        // (dropping reports shifts the indices of the undecodable frames: they
+        // are clamped at run time)
+        v.extend(C06.shrink(p));
+        v
+    }
+    fn meta(&self) -> Meta {
+        Meta {
+            level: "exploration",
+            rule: "One run = one generated air picture (same generator as the focused scenario, no restarts) handed to the python binding's real decode_1090t_vec as chunks of (frame, timestamp) lists of seeded sizes (empty chunks, single-message chunks, chunks of dozens), with undecodable frames carrying their own timestamps inserted at seeded places; the function runs in a separate process (hook H7) and every position of the records it returns is compared with the ground truth of the report the record stands for. Distinct = distinct hash of the fed history and chunking. Non-trivial = at least one channel fault, gap > 9.5 s or undecodable frame occurred AND at least one position was compared.",
+            components: vec![
+                ("python binding: decode_1090t_vec (parallel chunk parsing with rayon, concatenation, decode_positions)", "real (separate process; unit-test binary of the rs1090-python crate, hook H7)"),
+                ("pickle output", "real (serde_pickle), read back by the process-side driver"),
+                ("aircraft, transponder, encoder, channel", "stub (same world as the focused scenario)"),
+                ("Python interpreter / PyO3 call boundary", "stub (the function is called from Rust; it touches no Python object)"),
+            ],
+            assumptions: vec!["the k-th record returned stands for the k-th decodable frame handed over (the function keeps the order and drops what does not decode)"],
+            fault_kinds: vec!["loss_or_gap_over_9_5s", "duplicate", "timestamp_swap", "order_swap", "undecodable_frame_in_chunk", "empty_chunk"],
+            probes: vec!["records_returned", "positions_returned", "positions_checked", "chunks"],
+        }
+    }
+    fn sample(&self, p: &C06Plan) -> serde_json::Value {
+        C06.sample(p)
+    }
+}
+
+pub fn execute_python(plan: &C06Plan) -> Outcome<C06Plan> {
+    let mut out = Outcome::new();
+    out.evaluations = 1;
+    let Ok(bin) = std::env::var("VERIF_PYSUBJECT") else {
+        out.harness_error = Some("VERIF_PYSUBJECT (path of the python binding's test binary) is not set".to_string());
+        return out;
+    };
+    let mut skipped = 0u64;
+    let built = match build(plan, &mut skipped) {
+        Ok(b) => b,
+        Err(e) => {
+            out.harness_error = Some(e);
+            return out;
+        }
+    };
+    // the messages handed over: the built reports, with undecodable frames in between
+    enum Item {
+        Report(usize),
+        Bad(f64),
+    }
+    let mut items: Vec<Item> = Vec::new();
+    let mut bi = 0usize;
+    for (k, b) in built.iter().enumerate() {
+        while bi < plan.bad_before.len() && (plan.bad_before[bi] as usize) <= b.idx {
+            // stamped like its neighbour
+            items.push(Item::Bad(b.msg.timestamp - 0.01));
+            bi += 1;
+        }
+        items.push(Item::Report(k));
+    }
+    let last_ts = built.last().map(|b| b.msg.timestamp).unwrap_or(exec::EPOCH_S as f64);
+    while bi < plan.bad_before.len() {
+        items.push(Item::Bad(last_ts + 0.01));
+        bi += 1;
+    }
+    let n_bad = items.iter().filter(|i| matches!(i, Item::Bad(_))).count() as u64;
+    out.count("undecodable_frame_in_chunk", n_bad);
+    let mut text = String::new();
+    match plan.reference {
+        Some((la, lo)) => text.push_str(&format!("ref {:?} {:?}\n", la, lo)),
+        None => text.push_str("noref\n"),
+    }
+    let mut ci = 0usize;
+    let mut in_chunk = 0usize;
+    let mut chunk_left: usize = plan.chunks.first().copied().unwrap_or(u16::MAX) as usize;
+    text.push_str("chunk\n");
+    let mut n_chunks = 1u64;
+    for it in &items {
+        while chunk_left == 0 {
+            if in_chunk == 0 {
+                out.count("empty_chunk", 1);
+            }
+            ci += 1;
+            chunk_left = plan.chunks.get(ci).copied().unwrap_or(u16::MAX) as usize;
+            text.push_str("chunk\n");
+            n_chunks += 1;
+            in_chunk = 0;
+        }
+        match it {
+            Item::Report(k) => text.push_str(&format!("m {:?} {}\n", built[*k].msg.timestamp, world::hex(&built[*k].msg.frame))),
+            // a DF17 whose parity does not check
+            Item::Bad(ts) => text.push_str(&format!("m {:?} 8d406b902015a678d4d220aa4bdb\n", ts)),
+        }
+        chunk_left -= 1;
+        in_chunk += 1;
+    }
+    out.count("chunks", n_chunks);
+    let mut h = Fnv::new();
+    h.bytes(text.as_bytes());
+    let dir = std::env::var("VERIF_SCRATCH").unwrap_or_else(|_| "/verif/.target/scratch".to_string());
+    let _ = std::fs::create_dir_all(&dir);
+    let path = format!("{}/c06py-{:016x}-{:?}.txt", dir, h.0, std::thread::current().id());
+    if let Err(e) = std::fs::write(&path, &text) {
+        out.harness_error = Some(format!("cannot write {}: {}", path, e));
+        return out;
+    }
+    let res = std::process::Command::new(&bin)
+        .args(["verif::verif_py_entry", "--exact", "--nocapture", "--test-threads=1"])
+        .env("VERIF_PY_INPUT", &path)
+        .env("RAYON_NUM_THREADS", "2")
+        .output();
+    let _ = std::fs::remove_file(&path);
+    let o = match res {
+        Ok(o) => o,
+        Err(e) => {
+            out.harness_error = Some(format!("cannot run {}: {}", bin, e));
+            return out;
+        }
+    };
+    let mut viol: Option<Violation> = None;
+    let stdout = String::from_utf8_lossy(&o.stdout).to_string();
+    if !o.status.success() {
+        let all = format!("{}{}", stdout, String::from_utf8_lossy(&o.stderr));
+        let line = all.lines().find(|l| l.contains("panicked")).unwrap_or("").to_string();
+        if line.contains("/verif/") {
+            out.harness_error = Some(format!("process-side driver failed: {}", line));
+            return out;
+        }
+        viol = Some(Violation::new("c06.4-panic", "python-binding-exit", format!("decode_1090t_vec's process exited with {:?}: {}", o.status.code(), line)));
+    }
+    let recs: Vec<Vec<&str>> = stdout.lines().filter(|l| l.starts_with("r ")).map(|l| l.split_whitespace().collect()).collect();
+    out.count("records_returned", recs.len() as u64);
+    if viol.is_none() && recs.len() != built.len() {
+        viol = Some(Violation::new(
+            "c06.3-batch",
+            "python-record-count",
+            format!("decode_1090t_vec returned {} records for {} decodable frames", recs.len(), built.len()),
+        ));
+    }
+    let mut compared = 0u64;
+    let mut faulty = n_bad > 0;
+    if viol.is_none() {
+        for (k, r) in recs.iter().enumerate() {
+            let b = &built[k];
+            if r.len() < 5 || r[2] != world::hex(&b.msg.frame) {
+                viol = Some(Violation::new("c06.3-batch", "python-record-order", format!("record #{} returned by decode_1090t_vec is frame {}, the {}-th decodable frame handed over is {}", k, r.get(2).unwrap_or(&"?"), k, world::hex(&b.msg.frame))));
+                break;
+            }
+            let (la, lo) = (r[3].parse::<f64>().ok(), r[4].parse::<f64>().ok());
+            if let (Some(la), Some(lo)) = (la, lo) {
+                out.count("positions_returned", 1);
+                compared += 1;
+                let t = &b.truth;
+                let d = world::gc_dist_m(la, lo, t.lat, t.lon);
+                if !(d <= 25.0) {
+                    let rep = &plan.reports[b.idx];
+                    viol = Some(Violation::new(
+                        "c06.1-wrong-position",
+                        format!("python/{}", if t.surface { "surface" } else { "airborne" }),
+                        format!(
+                            "decode_1090t_vec gave ({:.5}, {:.5}) to report #{} of aircraft {:06x} (encoded at t={:.2}s; returned with timestamp {}), the aircraft was at ({:.5}, {:.5}): {:.0} m off",
+                            la, lo, b.idx, plan.aircraft[rep.ac as usize % plan.aircraft.len()].icao, rep.t_enc, r[1], t.lat, t.lon, d
+                        ),
+                    ));
+                    break;
+                }
+            }
+        }
+    }
+    out.count("positions_checked", compared);
+    let mut last_ts: Vec<Option<f64>> = vec![None; plan.aircraft.len()];
+    let mut sig = Fnv::new();
+    for b in &built {
+        let r = &plan.reports[b.idx];
+        let ai = r.ac as usize % plan.aircraft.len();
+        match r.fault {
+            1 => {
+                out.count("duplicate", 1);
+                faulty = true;
+            }
+            2 => {
+                out.count("timestamp_swap", 1);
+                faulty = true;
+            }
+            3 => {
+                out.count("order_swap", 1);
+                faulty = true;
+            }
+            _ => {}
+        }
+        let gap = last_ts[ai].map(|t| r.ts - t).unwrap_or(0.0);
+        if gap >= 9.5 {
+            out.count("loss_or_gap_over_9_5s", 1);
+            faulty = true;
+        }
+        last_ts[ai] = Some(r.ts);
+        sig.u64(((ai as u64) << 40) | ((r.odd as u64) << 39) | ((b.truth.surface as u64) << 38) | ((gap.min(4000.0) * 10.0) as u64) << 4 | r.fault as u64);
+    }
+    for c in &plan.chunks {
+        sig.u64(*c as u64);
+    }
+    for b in &plan.bad_before {
+        sig.u64(0xBAD0_0000 | *b as u64);
+    }
+    out.sigs.push(sig.0);
+    if faulty && compared > 0 {
+        out.nontrivial_sigs.push(sig.0);
+    }
+    out.steps = built.len() as u64;
+    out.sim_ns = (plan.reports.iter().map(|r| r.ts).fold(0.0, f64::max) * 1e9) as u64;
+    out.log_hash = {
+        // (the test harness around the entry point prints wall-clock timings)
+        let mut f = Fnv::new();
+        for l in stdout.lines().filter(|l| l.starts_with("r ") || l.starts_with("end ")) {
+            f.bytes(l.as_bytes());
+        }
         f.u64(viol.is_some() as u64);
         f.0
     };
